@@ -1040,6 +1040,80 @@ fn c10_game(rep: &Reporter, base: &Pos, d: usize, max_plies: usize, script: Opti
     (plies, mattered)
 }
 
+/// one query of the forcing-cycle family: `go depth d` after `moves` from `base` against the
+/// alpha-beta reference with the repetition rule. Returns (the rule changes the reference value,
+/// the engine differs but not attributably to the rule).
+fn c10_cycle_query(rep: &Reporter, base: &Pos, moves: &[String], depth: usize, print: bool) -> (bool, bool) {
+    let draw = verif::draw_score();
+    let contempt = verif::contempt();
+    let mut line: Vec<Pos> = vec![base.clone()];
+    for u in moves {
+        let q = line.last().unwrap().clone();
+        match q.find_legal_uci(u) {
+            Some(m) => line.push(q.make(&m)),
+            None => return (false, false),
+        }
+    }
+    let root = line.last().unwrap().clone();
+    let mut sess = Session::new(false);
+    let out = search_depth(&mut sess, base, moves, depth, "");
+    sess.quit();
+    let case = |extra: Value| json!({"kind": "cycle", "base": base.to_fen(), "history": moves, "depth": depth, "detail": extra});
+    if let Some(pr) = &out.problem {
+        rep.report(format!("no_answer:{}", short(pr)), case(json!({"problem": pr})));
+        return (false, false);
+    }
+    let eval = |q: &Pos, l: bool| eval_hook(q, l);
+    let mut wants = Vec::new();
+    for c in [contempt, -contempt] {
+        let mut rs = RefSearch::new(&eval);
+        rs.history = line[..line.len() - 1].to_vec();
+        rs.repetition = Some(RepRule { draw, contempt: c });
+        wants.push(rs.root_value_ab_rep(&root, depth));
+    }
+    let mut rs0 = RefSearch::new(&eval);
+    let without_rule = rs0.root_ab(&root, depth).0;
+    let matters = without_rule != wants[0];
+    let got = match out.score {
+        Some(Score::Centipawn { score }) => Some(score),
+        _ => None,
+    };
+    if print {
+        println!("engine {:?} (pv {:?}), reference with repetition rule {:?}, without {}", out.score, out.pv, wants, without_rule);
+    }
+    let mate_expected = wants.iter().any(|w| verif::is_checkmate_value(*w));
+    let mut unattributed = false;
+    if !mate_expected && got != Some(wants[0]) && got != Some(wants[1]) {
+        // At depth 4/5 the root value also depends on how exact the search is beyond the depths C08
+        // speaks about. What C10 is about is the DIFFERENCE THE HISTORY MAKES: the same root
+        // searched without the history (`position fen <root>`, no moves) on a fresh engine, and the
+        // reference without history; if the engine deviates from the tree minimax by the same
+        // amount with and without the history, the repetition rule has nothing to do with it (no
+        // verdict, counted).
+        let mut s2 = Session::new(false);
+        let bare = search_depth(&mut s2, &root, &[], depth, "");
+        s2.quit();
+        let bare_got = match bare.score {
+            Some(Score::Centipawn { score }) => Some(score),
+            _ => None,
+        };
+        if print {
+            println!("the same root without history: engine {:?}", bare.score);
+        }
+        let attributable = match (got, bare_got) {
+            (Some(g), Some(bg)) => (g - bg) != (wants[0] - without_rule) && (g - bg) != (wants[1] - without_rule),
+            _ => true,
+        };
+        if attributable {
+            let sig = if got == Some(without_rule) { "line_ending_in_third_occurrence_valued_by_material" } else { "value_differs_from_reference_with_repetition_rule" };
+            rep.report(format!("{}:depth{}", sig, depth), case(json!({"expected": wants, "reference_without_repetition_rule": without_rule, "actual": score_json(&out.score), "engine_on_the_same_root_without_history": score_json(&bare.score)})));
+        } else {
+            unattributed = true;
+        }
+    }
+    (matters, unattributed)
+}
+
 /// rook/king walkers: each side moves one piece around a closed cycle of squares; the whole position
 /// repeats every lcm(len_w, len_b) full moves. Returns the game as UCI moves (all reversible).
 fn periodic_game(base: &Pos, white_cycle: &[&str], black_cycle: &[&str], plies: usize) -> Option<Vec<String>> {
@@ -1259,7 +1333,11 @@ pub fn run_c10(tier: Tier) -> i32 {
                     Some(Score::Centipawn { score }) => Some(score),
                     _ => None,
                 };
-                let ok = got == Some(want) || got == Some(want2);
+                let mut ok = got == Some(want) || got == Some(want2);
+                if verif::is_checkmate_value(want) || verif::is_checkmate_value(want2) {
+                    // the line ends in mate: distances are compared as the engine reports them
+                    ok = out.score == Some(verif::score_from_value(want, &board_of(&root))) || out.score == Some(verif::score_from_value(want2, &board_of(&root)));
+                }
                 if !ok {
                     let sig = if third && depth == 1 {
                         "third_occurrence_not_valued_as_draw"
@@ -1427,6 +1505,7 @@ pub fn run_c10(tier: Tier) -> i32 {
     }
     let cyc_n = AtomicU64::new(0);
     let cyc_matter = AtomicU64::new(0);
+    let cyc_unattributed = AtomicU64::new(0);
     par_map_fine(&cyc_jobs, |(base, cycle)| {
         let mut line: Vec<Pos> = vec![base.clone()];
         for m in cycle {
@@ -1437,40 +1516,17 @@ pub fn run_c10(tier: Tier) -> i32 {
         let moves: Vec<String> = cycle.iter().map(|m| m.uci()).collect();
         let depths: &[usize] = if tier == Tier::Quick { &[4] } else { &[4, 5] };
         for &depth in depths {
-            let mut sess = Session::new(false);
-            let out = search_depth(&mut sess, base, &moves, depth, "");
-            sess.quit();
             cyc_n.fetch_add(1, Ordering::Relaxed);
-            let case = |extra: Value| json!({"kind": "cycle", "base": base.to_fen(), "history": moves, "depth": depth, "detail": extra});
-            if let Some(pr) = &out.problem {
-                rep.report(format!("no_answer:{}", short(pr)), case(json!({"problem": pr})));
-                return;
-            }
-            let eval = |q: &Pos, l: bool| eval_hook(q, l);
-            let mut wants = Vec::new();
-            for c in [contempt, -contempt] {
-                let mut rs = RefSearch::new(&eval);
-                rs.history = line[..line.len() - 1].to_vec();
-                rs.repetition = Some(RepRule { draw, contempt: c });
-                wants.push(rs.root_value_ab_rep(&root, depth));
-            }
-            let mut rs0 = RefSearch::new(&eval);
-            let without_rule = rs0.root_ab(&root, depth).0;
-            if without_rule != wants[0] {
+            let (matters, unattributed) = c10_cycle_query(&rep, base, &moves, depth, false);
+            if matters {
                 cyc_matter.fetch_add(1, Ordering::Relaxed);
             }
-            let got = match out.score {
-                Some(Score::Centipawn { score }) => Some(score),
-                _ => None,
-            };
-            let mate_expected = wants.iter().any(|w| verif::is_checkmate_value(*w));
-            if !mate_expected && got != Some(wants[0]) && got != Some(wants[1]) {
-                let sig = if got == Some(without_rule) { "line_ending_in_third_occurrence_valued_by_material" } else { "value_differs_from_reference_with_repetition_rule" };
-                rep.report(format!("{}:depth{}", sig, depth), case(json!({"expected": wants, "reference_without_repetition_rule": without_rule, "actual": score_json(&out.score)})));
+            if unattributed {
+                cyc_unattributed.fetch_add(1, Ordering::Relaxed);
             }
         }
     });
-    fams.push(json!({"family": "forcing check cycles (KQ+3P v KQRR+shield), cycle already played once, go depth 4/5", "positions": cyc_jobs.len(), "searches": cyc_n.load(Ordering::Relaxed), "searches_where_the_repetition_rule_changes_the_reference_value": cyc_matter.load(Ordering::Relaxed), "secs": t0.elapsed().as_secs_f64()}));
+    fams.push(json!({"family": "forcing check cycles (KQ+3P v KQRR+shield), cycle already played once, go depth 4/5", "positions": cyc_jobs.len(), "searches": cyc_n.load(Ordering::Relaxed), "searches_where_the_repetition_rule_changes_the_reference_value": cyc_matter.load(Ordering::Relaxed), "differences_not_attributable_to_the_repetition_rule_no_verdict": cyc_unattributed.load(Ordering::Relaxed), "secs": t0.elapsed().as_secs_f64()}));
     if cyc_matter.load(Ordering::Relaxed) == 0 {
         rep.machinery("vacuous: the repetition rule never changes the reference value in the cycle family");
     }
@@ -1812,36 +1868,7 @@ pub fn replay(id: &str, case: &Value) -> i32 {
         }
         ("C10", "cycle") => {
             let moves: Vec<String> = case["history"].as_array().map(|a| a.iter().map(|v| v.as_str().unwrap_or("").to_string()).collect()).unwrap_or_default();
-            let mut line = vec![p.clone()];
-            for u in &moves {
-                let q = line.last().unwrap().clone();
-                match q.find_legal_uci(u) {
-                    Some(m) => line.push(q.make(&m)),
-                    None => return 2,
-                }
-            }
-            let root = line.last().unwrap().clone();
-            let mut sess = Session::new(false);
-            let out = search_depth(&mut sess, &p, &moves, depth, "");
-            sess.quit();
-            let eval = |q: &Pos, l: bool| eval_hook(q, l);
-            let mut wants = Vec::new();
-            for c in [verif::contempt(), -verif::contempt()] {
-                let mut rs = RefSearch::new(&eval);
-                rs.history = line[..line.len() - 1].to_vec();
-                rs.repetition = Some(RepRule { draw: verif::draw_score(), contempt: c });
-                wants.push(rs.root(&root, depth, None).0);
-            }
-            let mut rs0 = RefSearch::new(&eval);
-            let without = rs0.root(&root, depth, None).0;
-            println!("engine {:?} (pv {:?}), reference with repetition rule {:?}, without {}", out.score, out.pv, wants, without);
-            let got = match out.score {
-                Some(Score::Centipawn { score }) => Some(score),
-                _ => None,
-            };
-            if got != Some(wants[0]) && got != Some(wants[1]) {
-                rep.report("value_differs_from_reference_with_repetition_rule".to_string(), json!({"kind": "cycle", "base": p.to_fen(), "history": moves, "depth": depth}));
-            }
+            c10_cycle_query(&rep, &p, &moves, depth, true);
         }
         ("C10", "history_unit") => {
             let seq: Vec<u64> = case["sequence"].as_array().map(|a| a.iter().map(|v| v.as_u64().unwrap_or(0)).collect()).unwrap_or_default();
